@@ -22,7 +22,7 @@ from ..model import AnalysisError
 from ..x_syncnorm import normalized
 
 NORM_MODULES = ("tornado/locks.py", "tornado/queues.py", "tornado/gen.py", "tornado/concurrent.py", "tornado/ioloop.py", "tornado/platform/asyncio.py")
-from ..x_sync import with_nullness, check_outcome_reads, check_none_tests, own_walk, guard_models, aug_delta, node_counts, method_call_on, container_uses, exit_states, reaches, lambda_or_func_body_calls, own_find, own_settle_sites
+from ..x_sync import resolve_callable_name, with_nullness, check_outcome_reads, check_none_tests, own_walk, guard_models, aug_delta, node_counts, method_call_on, container_uses, exit_states, reaches, lambda_or_func_body_calls, own_find, own_settle_sites
 
 TECHNIQUE = "typestate over the CFG (permit accounting), exhaustive guard folding, settle-discipline and who-may-touch lint"
 EXPLANATION = (
@@ -296,9 +296,10 @@ def check_timeout_cb(ck, acq, waiter, tmo, tparam, R="C33.timeout", RS="C33.sett
         a0 = q.arg(c, 0, "deadline")
         a1 = q.arg(c, 1, "callback")
         ck.ob(R, acq, c, isinstance(a0, ast.Name) and a0.id == tparam, "the timer is armed with the caller's timeout")
-        if not (isinstance(a1, ast.Name) and a1.id in nested):
-            raise AnalysisError("%s: timeout callback is not a nested function of %s" % (acq.site(c), acq.qualname))
-        cb = ck.use(nested[a1.id])
+        cbf = resolve_callable_name(ck.repo, acq, a1.id) if isinstance(a1, ast.Name) else None
+        if cbf is None:
+            raise AnalysisError("%s: timeout callback is not a function visible from %s" % (acq.site(c), acq.qualname))
+        cb = ck.use(cbf)
         n += 1
         ss = settle_sites(cb)
         fails = [s for s in ss if _is_fail(s[1], expect)]
